@@ -140,6 +140,7 @@ class PyVC(ExprMixin, CallMixin, StmtMixin, Engine):
         self.cur_fid = fid
         self.cur_fid_top = fid
         self.cur_contract = c
+        self.cur_contract_top = c
         self.depth = 0
         info = {"fid": fid, "status": "ok", "error": None, "sha": self.src.sha(fid),
                 "lines": None, "covers": []}
